@@ -185,12 +185,22 @@ func ListSolarFromBaZiBySectAndBaseYear(yearGanZhi string, monthGanZhi string, d
 					}
 					// 验证一下
 					solar := NewSolar(solarTime.GetYear(), solarTime.GetMonth(), solarTime.GetDay(), hour, mi, s)
-					lunar := solar.GetLunar()
-					dgz := lunar.GetDayInGanZhiExact()
-					if 2 == sect {
-						dgz = lunar.GetDayInGanZhiExact2()
+					matched := matchBaZi(solar, yearGanZhi, monthGanZhi, dayGanZhi, timeGanZhi, sect)
+					if !matched {
+						// 节令落在时辰的前一个小时内时，整点已经换月（年），用时辰的起点再验证一次
+						var first *Solar
+						if hour > 0 && hour < 23 {
+							first = NewSolar(solarTime.GetYear(), solarTime.GetMonth(), solarTime.GetDay(), hour-1, 0, 0)
+						} else if 0 == hour && 1 == sect {
+							prev := solarTime.NextDay(-1)
+							first = NewSolar(prev.GetYear(), prev.GetMonth(), prev.GetDay(), 23, 0, 0)
+						}
+						if nil != first && matchBaZi(first, yearGanZhi, monthGanZhi, dayGanZhi, timeGanZhi, sect) {
+							solar = first
+							matched = true
+						}
 					}
-					if strings.Compare(lunar.GetYearInGanZhiExact(), yearGanZhi) == 0 && strings.Compare(lunar.GetMonthInGanZhiExact(), monthGanZhi) == 0 && strings.Compare(dgz, dayGanZhi) == 0 && strings.Compare(lunar.GetTimeInGanZhi(), timeGanZhi) == 0 {
+					if matched {
 						l.PushBack(solar)
 					}
 				}
@@ -199,6 +209,15 @@ func ListSolarFromBaZiBySectAndBaseYear(yearGanZhi string, monthGanZhi string, d
 		y += 60
 	}
 	return l
+}
+
+func matchBaZi(solar *Solar, yearGanZhi string, monthGanZhi string, dayGanZhi string, timeGanZhi string, sect int) bool {
+	lunar := solar.GetLunar()
+	dgz := lunar.GetDayInGanZhiExact()
+	if 2 == sect {
+		dgz = lunar.GetDayInGanZhiExact2()
+	}
+	return strings.Compare(lunar.GetYearInGanZhiExact(), yearGanZhi) == 0 && strings.Compare(lunar.GetMonthInGanZhiExact(), monthGanZhi) == 0 && strings.Compare(dgz, dayGanZhi) == 0 && strings.Compare(lunar.GetTimeInGanZhi(), timeGanZhi) == 0
 }
 
 func (solar *Solar) IsLeapYear() bool {
